@@ -94,6 +94,7 @@ fn main() {
             monitors::c04::child_main(&args[2..]);
         }
         "debug-reflect" => monitors::c13::debug_reflect(),
+        "debug-net" => monitors::c14::debug_net(args[2].parse().unwrap(), args[3].parse().unwrap()),
         "c20-expected" => {
             let tier = args.get(2).cloned().unwrap_or("quick".into());
             let seed: u64 = args.get(3).and_then(|s| s.parse().ok()).unwrap_or(20261003);
